@@ -130,9 +130,9 @@ theorem process_id (p : Pattern ε) (x : Run ε) (ev : ε) : (process p x ev).2.
 
 /-- the four shapes of one run's contribution. -/
 inductive ContribShape (e : ε) (ph : String) (r : LRun ε) : RunsAcc ε → Prop
-  | completed (r' : LRun ε) (hid : r'.run.id = r.run.id) :
+  | completed (r' : LRun ε) (hid : r'.run.id = r.run.id) (hpat : r'.pat = r.pat) :
       ContribShape e ph r { keep := [], hc := [r'.ser ph], hi := [], upd := [] }
-  | halted (r' : LRun ε) (hid : r'.run.id = r.run.id) :
+  | halted (r' : LRun ε) (hid : r'.run.id = r.run.id) (hpat : r'.pat = r.pat) :
       ContribShape e ph r { keep := [], hc := [], hi := [r'.ser ph], upd := [] }
   | updated (r' : LRun ε) (hid : r'.run.id = r.run.id) (hpat : r'.pat = r.pat)
       (hle : active r.run.idx r.run.hist.size ≤ active r'.run.idx r'.run.hist.size) :
@@ -153,8 +153,8 @@ theorem contrib_shape (e : ε) (ph : String) (r : LRun ε) : ContribShape e ph r
       · by_cases hh : run'.halted = true
         · simp only [hh, if_true]
           split
-          · exact .completed { r with run := run' } hid
-          · exact .halted { r with run := run' } hid
+          · exact .completed { r with run := run' } hid rfl
+          · exact .halted { r with run := run' } hid rfl
         · simp only [hh, Bool.false_eq_true, if_false]
           have hlive : (process r.pat r.run e).2.halted = false := by rw [hp]; simpa using hh
           obtain ⟨⟨g, hg⟩, hidx⟩ := changed_live_records r.pat r.run e (by rw [hp]) hlive
@@ -204,14 +204,14 @@ theorem procBucket_other_ids (e : ε) (ph : String) (rs : List (LRun ε)) (id : 
     have hs := contrib_shape e ph r
     generalize contrib e ph r = cr at hs
     cases hs with
-    | completed r' hid =>
+    | completed r' hid hpat0 =>
       simp only [RunsAcc.append, List.nil_append, List.singleton_append]
       refine ⟨h1, ?_, h3, h4⟩
       intro x hx
       rcases List.mem_cons.mp hx with e1 | e1
       · subst e1; rw [ser_id, hid]; exact hr
       · exact h2 x e1
-    | halted r' hid =>
+    | halted r' hid hpat0 =>
       simp only [RunsAcc.append, List.nil_append, List.singleton_append]
       refine ⟨h1, h2, ?_, h4⟩
       intro x hx
@@ -265,10 +265,10 @@ theorem procBucket_key (e : ε) (ph pa id : String) (rs : List (LRun ε))
       generalize contrib e ph r = cr at hs
       have hfind : (r.run.id == id) = true := by simpa using hr
       cases hs with
-      | completed r' hid =>
+      | completed r' hid hpat0 =>
         left
         exact ⟨r'.ser ph, by simp [RunsAcc.append], by rw [ser_id, hid, hr]⟩
-      | halted r' hid =>
+      | halted r' hid hpat0 =>
         left
         exact ⟨r'.ser ph, by simp [RunsAcc.append], by rw [ser_id, hid, hr]⟩
       | updated r' hid hpat hle =>
@@ -298,10 +298,10 @@ theorem procBucket_key (e : ε) (ph pa id : String) (rs : List (LRun ε))
         · cases hs <;> simp [RunsAcc.append, h]
         · cases hs <;> simp [RunsAcc.append, h]
       · cases hs with
-        | completed r' hid =>
+        | completed r' hid hpat0 =>
           right
           simp only [RunsAcc.append, List.nil_append, List.find?_cons, hfind]; exact heq
-        | halted r' hid =>
+        | halted r' hid hpat0 =>
           right
           simp only [RunsAcc.append, List.nil_append, List.find?_cons, hfind]; exact heq
         | updated r' hid hpat hle =>
@@ -337,8 +337,8 @@ theorem upd_keys (e : ε) (ph pa : String) (rs : List (LRun ε)) (hnames : ∀ r
     have hs := contrib_shape e ph r
     generalize contrib e ph r = cr at hs
     cases hs with
-    | completed r' hid => simpa [RunsAcc.append] using ih'
-    | halted r' hid => simpa [RunsAcc.append] using ih'
+    | completed r' hid hpat0 => simpa [RunsAcc.append] using ih'
+    | halted r' hid hpat0 => simpa [RunsAcc.append] using ih'
     | updated r' hid hpat hle =>
       intro x hx
       simp only [RunsAcc.append, List.singleton_append, List.mem_cons] at hx
